@@ -1,0 +1,48 @@
+//! Verification hooks. Compiled only with `--cfg bacon_verif`; not part of the public API.
+//!
+//! A thread-local event sink: the IVP steppers push one snapshot of their scalar state at
+//! every entry of `step()`. Nothing is recorded unless a harness switches recording on.
+
+use std::cell::{Cell, RefCell};
+
+/// Scalar solver state at the entry of a `step()` call
+#[derive(Debug, Clone, PartialEq)]
+pub struct Snapshot {
+    pub kind: &'static str,
+    pub order: usize,
+    pub time: f64,
+    pub dt: f64,
+    pub yield_memory: usize,
+    pub values_len: usize,
+    pub values_first: f64,
+    pub values_last: f64,
+    pub derivs_len: usize,
+}
+
+thread_local! {
+    static RECORDING: Cell<bool> = const { Cell::new(false) };
+    static SINK: RefCell<Vec<Snapshot>> = const { RefCell::new(Vec::new()) };
+}
+
+/// Switch recording on or off (off by default); clears the sink.
+pub fn record(on: bool) {
+    RECORDING.with(|r| r.set(on));
+    SINK.with(|s| s.borrow_mut().clear());
+}
+
+/// Push a snapshot if recording is on.
+pub fn emit(snapshot: Snapshot) {
+    if RECORDING.with(|r| r.get()) {
+        SINK.with(|s| s.borrow_mut().push(snapshot));
+    }
+}
+
+/// Take everything recorded so far.
+pub fn drain() -> Vec<Snapshot> {
+    SINK.with(|s| std::mem::take(&mut *s.borrow_mut()))
+}
+
+/// Convert a real field element to f64 (NaN if it is not representable)
+pub fn to_f64<R: nalgebra::RealField>(x: R) -> f64 {
+    nalgebra::try_convert::<R, f64>(x).unwrap_or(f64::NAN)
+}
